@@ -357,7 +357,7 @@ def run(ctx):
                 base = "%s|ext|%s" % (p, model.short_callee(cp))
                 n = next_.get(base, 0)
                 next_[base] = n + 1
-                ent = T.lookup(T.EXTERNAL, "*|ext|%s" % model.short_callee(cp), 0) or T.lookup(T.EXTERNAL, base, 0)
+                ent = T.lookup(T.EXTERNAL, base, 0) or (None if base in T.EXTERNAL_NO_WILDCARD else T.lookup(T.EXTERNAL, "*|ext|%s" % model.short_callee(cp), 0))
                 if ent is None:
                     r4.violation(base, "call into %s (%s) without a recorded precondition review" % (kr, cp), loc(t.sp))
                 else:
